@@ -1,33 +1,37 @@
 (* Executable entry points of the C20 model in the integer-list protocol shared with
    harness/src/bin/c20.rs.  Input of both runners (the middle part of a harness run line):
-     fast fresh oncb nev (tid point a g v)*
+     fast fresh oncb nev (tid point a g v w)*
    Decoders/encoders here are unverified glue of the correspondence check. *)
 From Coq Require Import String.
 From MJ Require Import Common.Base.
 From MJ Require Import C20.Model C20.Spec.
 
 Definition dec_ret (g v : Z) : ret :=
-  if g =? 0 then RNone else if g =? -1 then RErr else REnv {| gen := g; born := v |}.
+  if g =? 0 then RNone else if g =? -1 then RErr else if g =? -2 then RReq else REnv {| gen := g; born := v |}.
 
 Definition dec_label (t p a : Z) : option label :=
   match p with
   | 1 => Some (LReqSet t)
-  | 2 => Some (LReqNotify t)
+  | 2 => Some (LReqNotify t (4 <=? a))
   | 3 => Some (LAcqCache t)
-  | 4 => Some (LAcqCheck t (if a =? 0 then None else Some (a =? 2)))
+  | 4 => Some (LAcqCheck t)
   | 5 => Some (LAcqMark t)
   | 6 => Some (LAcqFast t)
   | 7 => Some (LCreStart t)
   | 8 => Some (LCreEnd t (negb (a =? 0)))
   | 9 => Some (LAcqRestore t)
   | 10 => Some (LDrop t)
+  | 11 => Some (LFreshEnd t (a mod 4 =? 2))
+  | 12 => Some (LOnCbEnd t)
+  | 13 => Some (LBlocked t)
   | _ => None
   end.
 
-(* events, and the generations the creator calls reported (a of the CRE_START steps) *)
+(* events, and the generations the creator calls reported (a of the CRE_START steps);
+   the sixth number of an event (source version shown by the environment) is for the check's direct evaluation only *)
 Fixpoint dec_events (l : list Z) : option (list event * list Z) :=
   match l with
-  | t :: p :: a :: g :: v :: r =>
+  | t :: p :: a :: g :: v :: _ :: r =>
       match dec_label t p a, dec_events r with
       | Some lb, Some (evs, gens) =>
           Some ({| lab := lb; obs := dec_ret g v |} :: evs, if p =? 7 then a :: gens else gens)
@@ -47,7 +51,7 @@ Definition dec_cfg (fa fr oc : Z) : cfg :=
   {| fast := negb (fa =? 0); fresh_cb := negb (fr =? 0); on_cb := negb (oc =? 0); restore := true |}.
 
 Definition enc_ret (r : ret) : list Z :=
-  match r with RNone => [0; 0] | RErr => [-1; 0] | REnv e => [gen e; born e] end.
+  match r with RNone => [0; 0] | RErr => [-1; 0] | RReq => [-2; 0] | REnv e => [gen e; born e] end.
 
 (* is the observed trace a run of the model (the code as fixed)?
    0 creator_calls clears notifies reqs flag   accepted, with the model's final counters
